@@ -177,6 +177,27 @@ CLAIMED.update({
     ),
 })
 
+CLAIMED.update({
+    "C06": (
+        "shape of stored terms in polynomial normal form + interval abstract interpretation + order domain on the cap",
+        "other",
+        "The value stored before the update is sqrt(sigma^2 + tau^2) of the same player's prior and the resolved tau, by a full unconditional traversal preceding the update; the kernel stores that "
+        "inflated value times F with the interval of F proven inside (0, 1] on the input box (kappa floor, delta >= 0); posterior sigma finite and > 0; with limit_sigma every player's final sigma is on each "
+        "branch either its own prior or ordered below it. The history clause follows by induction.",
+        "Lemmas: L-A, L-SHARE, L-PL discharged structurally; assumption A-W (w, wt in [0, 1]) for the Thurstone-Mosteller models with premise R17.1 checked. Rounding in the last ulp not decided.",
+        "DESIGN.md §5 C06",
+    ),
+    "C05": (
+        "polynomial normal form of the stored mu (member share) + interval runs under assumed rank relations (3-point order domain)",
+        "other",
+        "Partial claim: every member's mu step is (own tau-inflated variance) x (player-independent team-level quantity), so members move together in proportion to own variance; "
+        "omega increments are >= 0 against worse-placed and <= 0 against better-placed teams (pairwise models), own-stage >= 0 / other-stage <= 0 (Plackett-Luce). "
+        "The two-team ordering, draw, monotonicity and identical-team clauses are inequalities between different calls and are not decided.",
+        "Same box and lemmas as C06; V >= 0 from C17 R17.2.",
+        "DESIGN.md §5 C05",
+    ),
+})
+
 NOT_APPLICABLE = {
     "C01": "numeric equality (1e-9) with published closed forms over a continuous input box: no sound static "
     "argument in reach; its structural necessary conditions are decided under C02/C03/C05/C06/C07/C16/C19",
